@@ -103,7 +103,7 @@ def valid_scens(seed, n, pred=None, cap=400):
     out, i = [], 0
     while len(out) < n and i < cap:
         st = S.QUICK_STRATA[i % len(S.QUICK_STRATA)] if i < 2 * len(S.QUICK_STRATA) else None
-        sc = S.gen_scenario(rng, 1000 + i, st)
+        sc = S.gen_scenario(S.stratum_rng(seed + 7919 * (i // len(S.QUICK_STRATA)), st) if st is not None else rng, 1000 + i, st)
         i += 1
         if pred is not None and not pred(sc):
             continue
@@ -174,16 +174,16 @@ def c08(ctx):
         # rainfed on a dry seed bed: germination is delayed on the planting day of every season (what the first
         # day after planting does then differs from what the first day after germination does)
         dict(crop="Wheat", station="tunis_climate.txt", irr_method=0, iwc=DRY, soil="SandyLoam", soil_kind="builtin", dz=None,
-             n_seasons=3, off_season=False, start_mode="at", gw=False, planting="10/15"),
+             n_seasons=3, off_season=False, start_mode="at", gw=False, planting="10/15", end_anniv=(3, -5), fm="none"),
         # ... the same for a thermal-time crop (which keeps a calendar-day delay counter as well), from a measured
         # initial profile whose values are not round numbers
         dict(crop="WheatGDD", station="tunis_climate.txt", irr_method=0, soil="Loam", soil_kind="builtin", dz=None,
              iwc={"wc_type": "Num", "method": "Depth", "depth_layer": [0.15, 0.55, 1.3], "value": [0.1213, 0.1877, 0.2461]},
-             n_seasons=3, off_season=False, start_mode="at", gw=False, planting="10/15"),
+             n_seasons=3, off_season=False, start_mode="at", gw=False, planting="10/15", end_anniv=(3, -5), fm="none"),
         dict(crop="Wheat", station="tunis_climate.txt", irr_method=4, iwc=WP, soil="Loam", soil_kind="builtin", n_seasons=4, off_season=False, start_mode="at", gw=False),
         dict(crop="Wheat", station="tunis_climate.txt", irr_method=2, iwc=FC, soil="SandyLoam", soil_kind="builtin", n_seasons=3, off_season=False, start_mode="at", gw=False),
-        dict(crop="Maize", station="champion_climate.txt", irr_method=1, iwc=FC, soil_kind="builtin", n_seasons=2, off_season=False, start_mode="before", gw=False),
-        dict(crop="MaizeGDD", station="champion_climate.txt", irr_method=0, n_seasons=2, off_season=False, start_mode="at", gw=False),
+        dict(crop="Maize", station="champion_climate.txt", irr_method=1, iwc=FC, soil_kind="builtin", dz=None, planting="05/01", n_seasons=2, off_season=False, start_mode="before", gw=False),
+        dict(crop="MaizeGDD", station="champion_climate.txt", irr_method=0, soil_kind="builtin", dz=None, planting="05/01", end_anniv=(2, -5), n_seasons=2, off_season=False, start_mode="at", gw=False),
         dict(crop="PaddyRice", station="hyderabad_climate.txt", irr_method=5, fm="bunds", soil="Paddy", soil_kind="builtin", n_seasons=2, off_season=False, start_mode="at", gw=False),
     ]
     # thermal-time crops flowering in the hot season (pollination heat stress is the only consumer of
@@ -226,7 +226,7 @@ def c08(ctx):
             if rng.random() < 0.5:
                 st["crop"] = str(rng.choice(["Wheat", "Maize", "Barley", "Tomato", "Quinoa", "Sorghum", "WheatGDD", "MaizeGDD"]))
         if st is not None:
-            sc = S.gen_scenario(rng, 8000 + tried, st)
+            sc = S.gen_scenario(S.stratum_rng(seed, {k: v for k, v in st.items() if k != "_forced"}) if st.get("_forced") else rng, 8000 + tried, st)
         if st is not None and st.get("_forced") and m == 2:
             sc["irr"] = {"method": 2, "IrrInterval": 7, "MaxIrr": 100.0}
         if st is not None and st.get("_forced") and m == 4:
@@ -577,13 +577,15 @@ def c10(ctx):
     except Exception as e:  # noqa: BLE001
         viols.append(V("C10", "interleaving-raises", a, "interleaved stepping raises", error=(type(e).__name__, str(e)[:200])))
     # (c') ... and with the two instances built from the SAME user objects: A is paused inside its second season, B is
-    # built from the same objects, initialised and run to the end, then A is continued
+    # built from the same objects and stepped into its first season, A is continued, then both are finished
     try:
         objs_ab = S.build_objects(b)
         ma = AquaCropModel(**objs_ab)
         ma.run_model(num_steps=400, initialize_model=True)
         mb = AquaCropModel(**objs_ab)
-        mb.run_model(till_termination=True)
+        mb.run_model(num_steps=100, initialize_model=True)      # B is in its first season while A continues its second
+        ma.run_model(num_steps=200, initialize_model=False)
+        mb.run_model(till_termination=True, initialize_model=False)
         ma.run_model(till_termination=True, initialize_model=False)
         for who, m in (("paused", ma), ("built-meanwhile", mb)):
             r = Res(); r.error = None
@@ -607,6 +609,12 @@ def c10(ctx):
     # ... and with a non-default object of EVERY user-facing kind (low bunds that monsoon storms overtop, mulches,
     # fallow management, a dated schedule, a moving water table, percentage initial water, a CO2 series): a unit
     # conversion or normalisation done in place on the caller's object compounds on its second use
+    # the run starts on the planting date (the first season is then set up by the initialisation alone, not by a
+    # season-start reset) under the default yearly CO2 series held by an explicit CO2 object
+    shared.append(dict(id="c10-shared-Wheat-start-on-planting-date", start="1995/10/15", end="1998/08/30",
+                       weather={"kind": "file", "name": "tunis_climate.txt"}, soil={"type": "SandyLoam"},
+                       crop={"name": "Wheat", "planting": "10/15", "overrides": {}}, irr={"method": 0},
+                       co2={"constant": False}, off_season=False))
     shared += all_kinds_scenarios()
     for sc_s in shared:
         try:
@@ -934,6 +942,10 @@ def c14(ctx):
              soil={"type": "SandyLoam"}, crop={"name": "Maize", "planting": "05/01", "overrides": {}}, irr={"method": 0}, off_season=False,
              gw={"water_table": "Y", "method": "Variable", "dates": ["1981-11-01", "1982-08-01", "1984-06-01"], "values": [1.6, 1.2, 0.9]},
              _ext_days=400),
+        # a user-built weather table (days of almost no evaporative demand) under a calendar-day crop
+        dict(id=14906, start="2001/03/10", end="2002/06/30", weather={"kind": "synth", "seed": 977, "regime": "mild", "start": "2001-02-01",
+                                                                     "end": "2002-08-15", "south": False},
+             soil={"type": "SandyLoam"}, crop={"name": "Barley", "planting": "03/20", "overrides": {}}, irr={"method": 0}, off_season=True, _ext_days=30),
     ] + scs
     for sc in scs:
         objs = S.build_objects(sc)
@@ -946,8 +958,16 @@ def c14(ctx):
         # (a) perturb the future (calendar-day crops only)
         if cal:
             nwin = (end - start).days + 1
-            for rep in range(2):
-                t = int(rng.integers(1, max(2, nwin - 1)))
+            cuts = [int(rng.integers(1, max(2, nwin - 1))) for _ in range(2)]
+            # ... and cuts right after the window's extreme records (a day of almost no evaporative demand, the
+            # wettest day, the hottest and the coldest): what the model does with such a day must not depend on the next
+            win = w0[(w0.Date >= start) & (w0.Date <= end)].reset_index(drop=True)
+            if len(win) > 10:
+                ext = [int(win["ReferenceET"].idxmin()), int(win["Precipitation"].idxmax()), int(win["MaxTemp"].idxmax()), int(win["MinTemp"].idxmin())]
+                lows = [int(i) for i in np.where(win["ReferenceET"].values < 0.1)[0][:2]]
+                cuts += [k + 1 for k in dict.fromkeys(lows + ext[:1] + ([ext[1]] if tier != "quick" else []) + (ext[2:] if tier != "quick" else []))
+                         if 0 < k + 1 < nwin - 1][:(3 if tier == "quick" else 6)]
+            for t in cuts:
                 w = w0.copy()
                 cut = start + pd.Timedelta(days=t)
                 m = w.Date >= cut
@@ -1032,7 +1052,8 @@ def c14(ctx):
             else:
                 r3 = run_full(sc3)
             evals += 1; nontriv += 1
-            if r3.error:
+            if r3.error and not permitted_rejection((r3.error[0], r3.error[1])):
+                # (a documented rejection of the longer window — e.g. a further season that cannot mature — is C16's matter)
                 viols.append(V("C14", "extend-raises" + tag, sc, "a run that completes raises when its end date is moved later (covered by the weather table)",
                                new_end=sc3["end"], error=r3.error, calendar_crop=bool(cal)))
             if not r3.error:
@@ -1243,6 +1264,34 @@ def c20(ctx):
             r2 = run_full(sc2)
             evals += 1; nontriv += 1
             _c20_cmp(viols, sc, "combined", base, r2, combo)
+    # the model's own latest harvest date stated explicitly, over the kinds of crop calendar the package derives:
+    # calendar-day and thermal-time crops of every crop type (leafy, root/tuber, fruit/grain), determinate and not
+    cal_cases = [("Wheat", "tunis_climate.txt", "10/15", "1985/10/15", "1987/08/30"), ("WheatGDD", "tunis_climate.txt", "11/01", "1985/10/01", "1987/08/30"),
+                 ("MaizeGDD", "champion_climate.txt", "05/01", "1990/05/01", "1992/12/30"), ("Potato", "brussels_climate.txt", "04/25", "1985/04/01", "1986/12/30"),
+                 ("PotatoGDD", "brussels_climate.txt", "04/25", "1985/04/25", "1987/12/30"), ("SugarBeetGDD", "brussels_climate.txt", "04/10", "1985/04/10", "1986/12/30"),
+                 ("Cabbage" if "Cabbage" in S.CROPS else "Tomato", "cordoba_climate.txt", "04/01", "2000/04/01", "2001/12/30"),
+                 ("TomatoGDD", "cordoba_climate.txt", "04/01", "2000/03/15", "2001/12/30")]
+    for ci, (crop_name, wname, pl, st_, en_) in enumerate(cal_cases if tier != "quick" else cal_cases[:: 1]):
+        if crop_name not in S.CROPS:
+            continue
+        for det in (0, 1):
+            if tier == "quick" and (ci + det) % 2:
+                continue
+            sc = dict(id=f"c20-harvest-{crop_name}-det{det}", start=st_, end=en_, weather={"kind": "file", "name": wname},
+                      soil={"type": "Loam"}, crop={"name": crop_name, "planting": pl, "overrides": {"Determinant": det}},
+                      irr={"method": 0}, off_season=bool(ci % 2))
+            base = run_full(sc)
+            if base.error:
+                continue
+            try:
+                mdl = S.build_model(sc); mdl._initialize()
+                ch = {"crop": dict(sc["crop"], harvest=mdl.crop.harvest_date)}
+            except Exception:  # noqa: BLE001
+                continue
+            sc2 = copy.deepcopy(sc); sc2.update(copy.deepcopy(ch))
+            r2 = run_full(sc2)
+            evals += 1; nontriv += 1
+            _c20_cmp(viols, sc, "explicit-harvest-date", base, r2, ch)
     return viols, dict(evaluations=evals, distinct_nontrivial=nontriv, c20_samples=[dict(transformations="see keys of violations / diffs.c20")])
 
 
@@ -1356,6 +1405,53 @@ def rejection_unjustified(sc, err, model):
     return None
 
 
+def c16_qualify(sc, key):
+    """the recorded findings of C16 are failures of particular input classes; an exception of the same type from the
+    same function on an input OUTSIDE that class is another violation and gets another key"""
+    try:
+        crop = sc["crop"]; pl = crop["planting"]; hv = crop.get("harvest")
+        start, end = pd.Timestamp(sc["start"]), pd.Timestamp(sc["end"])
+        mm, dd = [int(x) for x in pl.split("/")]
+        feb29 = (mm, dd) == (2, 29) or (hv is not None and tuple(int(x) for x in hv.split("/")) == (2, 29))
+        # planting dates inside [start, end)
+        inside = []
+        for y in range(start.year, end.year + 1):
+            try:
+                p_ = pd.Timestamp(year=y, month=mm, day=dd)
+            except ValueError:
+                continue
+            if start <= p_ < end:
+                inside.append(p_)
+        cp = S.crop_params.get(crop["name"], {})
+        if key in ("raises-DateParseError-read_model_parameters", "raises-DateParseError-compute_crop_calendar"):
+            return key if feb29 else key + "-no-29-february-in-the-inputs"
+        if key == "raises-ZeroDivisionError-run_single_timestep":
+            unset = not cp.get("YldWC") and "YldWC" not in crop.get("overrides", {})
+            return key if unset else key + "-crop-with-yldwc"
+        if key in ("raises-IndexError-read_model_parameters", "raises-IndexError-compute_crop_calendar"):
+            # recorded: windows in which no season can be scheduled (no planting date inside, or only a last, partial
+            # season of a crop whose season runs over New Year / of a thermal-time crop)
+            cal = int(crop.get("overrides", {}).get("CalendarType", cp.get("CalendarType", 1)))
+            mat = float(cp.get("MaturityCD", 0) or 0)
+            over_new_year = bool(inside) and (inside[-1] + pd.Timedelta(days=int(mat) + 30)).year > inside[-1].year
+            if not inside or cal == 2 or int(crop.get("overrides", {}).get("SwitchGDD", 0)) == 1 or (len(inside) == 1 and over_new_year):
+                return key
+            return key + "-planting-date-inside-window"
+        if key == "raises-UnboundLocalError-check_groundwater_table":
+            gw = sc.get("gw") or {}
+            ds = sorted(pd.Timestamp(str(d)[:10]) for d in gw.get("dates", []))
+            late = gw.get("method") == "Variable" and len(ds) > 1 and ds[0] > start
+            return key if late else key + "-observations-cover-the-start"
+        if key == "raises-AssertionError-root_zone_water":
+            dz = sc.get("soil", {}).get("dz")
+            zmax = float(crop.get("overrides", {}).get("Zmax", cp.get("Zmax", 0)))
+            deepened = dz is not None and float(np.sum(dz)) < zmax + 0.1 - 1e-9
+            return key if deepened else key + "-profile-not-deepened"
+    except Exception:  # noqa: BLE001
+        return key
+    return key
+
+
 def c16_cell(sc):
     """run one catalogue cell; returns None if fine, else a violation-description dict"""
     import signal
@@ -1382,7 +1478,7 @@ def c16_cell(sc):
             return dict(ok="rejected")
         where = tr.error[2].split(":")
         fn = where[0].split("/")[-1].replace(".py", "") if where and where[0] else "unknown"
-        return dict(key=f"raises-{tr.error[0]}-{fn}", what="run raises an exception that is not a documented rejection",
+        return dict(key=c16_qualify(sc, f"raises-{tr.error[0]}-{fn}"), what="run raises an exception that is not a documented rejection",
                     error=list(tr.error))
     if not tr.finished:
         return dict(key="not-finished", what="run stops without reaching termination")
@@ -1778,6 +1874,41 @@ def c17(ctx):
             if f0 is not None and abs(f - f0) > 1e-12 * max(1.0, abs(f0)):
                 viols.append(V("C17", "fco2-reset-differs-from-init", pseudo, "CO2 factor of later seasons differs from the first season's at the same concentration", crop=cname, conc=conc, reset=float(f), init=float(f0)))
             prev = f
+    # the factors a multi-season run actually works with: one per season, read at each season's first day, under yearly
+    # series that rise, stay level, fall back and pass through the reference — 1 at the reference, and for any two seasons
+    # of a run the one with the higher concentration has the higher (or equal) factor
+    series = [[[1978, 330.0], [1980, 330.0], [1981, 420.0], [1990, 420.0]],
+              [[1978, 450.0], [1980, 450.0], [1981, 369.41], [1990, 369.41]],
+              [[1978, 340.0], [1981, 400.0], [1982, 400.0], [1983, 360.0], [1984, 360.0], [1990, 520.0]]]
+    for si, ser in enumerate(series if tier != "quick" else series[:2] + series[2:]):
+        for cname, pl in (("Wheat", "10/15"), ("Barley", "11/01")) if tier != "quick" else (("Wheat", "10/15"),):
+            sc_m = dict(id=f"c17-seasons-{cname}-{si}", start="1979/" + pl, end="1985/08/30", weather={"kind": "file", "name": "tunis_climate.txt"},
+                        soil={"type": "SandyLoam"}, crop={"name": cname, "planting": pl, "overrides": {}}, irr={"method": 0},
+                        co2={"constant": False, "series": ser}, off_season=False)
+            try:
+                mdl = S.build_model(sc_m)
+                mdl._initialize()
+                seen = {}
+                while not mdl._clock_struct.model_is_finished:
+                    k = int(mdl._clock_struct.season_counter)
+                    if k >= 0 and k not in seen:
+                        yr = int(pd.Timestamp(mdl._clock_struct.planting_dates[k]).year)
+                        seen[k] = (float(np.interp(yr, [y for y, _ in ser], [v for _, v in ser])),
+                                   float(mdl._param_struct.Seasonal_Crop_List[k].fCO2))
+                        mdl.run_model(num_steps=1, initialize_model=False)      # the season's first day
+                        seen[k] = (seen[k][0], float(mdl._param_struct.Seasonal_Crop_List[k].fCO2))
+                    mdl.run_model(num_steps=40, initialize_model=False)
+            except Exception:  # noqa: BLE001
+                continue
+            evals += len(seen); nontriv += 1
+            for k, (conc, f) in seen.items():
+                if abs(conc - 369.41) < 1e-9 and abs(f - 1.0) > 1e-12:
+                    viols.append(V("C17", "fco2-season-at-ref", sc_m, "a season at the reference concentration runs with a CO2 factor other than 1", season=k, conc=conc, f=f))
+                for k2, (conc2, f2) in seen.items():
+                    if conc2 >= conc and f2 < f - 1e-12:
+                        viols.append(V("C17", "fco2-season-monotone", sc_m, "of two seasons of a run the one with the higher (or equal) concentration has the lower CO2 factor",
+                                       season=k, conc=conc, f=f, other_season=k2, other_conc=conc2, other_f=f2))
+                        break
     return viols, dict(evaluations=evals, distinct_nontrivial=nontriv, c17_crops=len(S.CROPS),
                        c17_samples=[dict(lattice="depletion -20..120 % TAW x ET0 0.1..20; T -30..60; time; CO2 250..2500", crops=len(S.CROPS))])
 
@@ -1919,6 +2050,9 @@ def c18(ctx):
     scs.append(dict(base, id="c18-three-layers", iwc={"wc_type": "Prop", "method": "Layer", "depth_layer": [1, 2, 3], "value": ["FC", "WP", "SAT"]},
                     soil={"type": "custom", "dz": [0.1] * 12,
                           "layers": [[0.5, 0.10, 0.22, 0.41, 1200, 100], [0.4, 0.23, 0.39, 0.5, 125, 100], [0.3, 0.32, 0.50, 0.54, 15, 100]]}))
+    scs.append(dict(base, id="c18-three-equal-layers", iwc={"wc_type": "Pct", "method": "Layer", "depth_layer": [1, 2, 3], "value": [70.0, 50.0, 30.0]},
+                    soil={"type": "custom", "dz": [0.1] * 12,
+                          "layers": [[0.4, 0.10, 0.22, 0.41, 1200, 100], [0.4, 0.23, 0.39, 0.5, 125, 100], [0.4, 0.32, 0.50, 0.54, 15, 100]]}))
     scs.append(dict(base, id="c18-four-layers", iwc={"wc_type": "Pct", "method": "Layer", "depth_layer": [1, 2, 3, 4], "value": [80.0, 60.0, 40.0, 20.0]},
                     soil={"type": "custom", "dz": [0.05] * 4 + [0.1] * 10,
                           "layers": [[0.2, 0.06, 0.13, 0.36, 3000, 100], [0.3, 0.10, 0.22, 0.41, 1200, 100],
@@ -1937,7 +2071,12 @@ def c18(ctx):
         try:
             model = S.build_model(sc)
             model._initialize()
-        except Exception:  # noqa: BLE001
+        except Exception as e:  # noqa: BLE001
+            if str(sc.get("id", "")).startswith("c18-"):
+                # the hand-written configurations are valid: a profile / initial water content that cannot be built is
+                # not "built as specified"
+                viols.append(V("C18", "initialisation-raises", sc, "a valid soil / initial-water specification cannot be initialised",
+                               error=(type(e).__name__, str(e)[:200])))
             continue
         evals += 1
         deep = float(np.sum(model._param_struct.Soil.Profile.dz)) > float(np.sum(np.array(sc["soil"].get("dz") or [0.1] * 12))) + 1e-9
